@@ -159,6 +159,10 @@ func runC05(c *Ctx) {
 		}
 		total := int64(1)
 		if np, nr := len(callsNamed(um, "frame.peekAndDiscard")), len(callsNamed(um, "io.ReadFull")); np < 2 || nr != 1 {
+			if nr == 0 && np >= 3 {
+				r.Fail("R5.3", v.fn+" consumed vs written", c.Pos(um.Pos()), "the payload is not read with io.ReadFull into a buffer of its own but peeked: a Peek of up to 255 bytes fails with ErrBufferFull on small user-supplied readers and the bytes it returns do not survive the next read")
+				continue
+			}
 			r.Broken("R5.3", v.fn+" consumed vs written", fmt.Sprintf("consumption idiom not understood (%d peekAndDiscard, %d io.ReadFull)", np, nr))
 			continue
 		}
@@ -323,6 +327,9 @@ func runC05(c *Ctx) {
 			walk(buf, 0)
 		}
 		r.Check(bad55 == "" && nIdx > 0, "R5.5", name+" peek indices", c.Pos(fn.Pos()), fmt.Sprintf("%d constant indices/bounds inside their peeked block", nIdx), "out-of-range access: "+bad55)
+		if bad58 == "" {
+			bad58 = peekLifetimeProblem(c, fn)
+		}
 		r.Check(bad58 == "", "R5.8", name+" peek lifetime", c.Pos(fn.Pos()), "peeked bytes are copied out before the next read", bad58)
 		// R5.7
 		bad57 := ""
@@ -457,4 +464,97 @@ func ruleTlogReader(c *Ctx, rule string) {
 		}
 	}
 	r.Check(okEntry, rule, "tlog.Reader.Read entry construction", c.Pos(rd.Pos()), "Entry built only after both reads succeeded; errors returned with a nil entry", why)
+}
+
+// peekLifetimeProblem (R5.8 and its siblings R1.7 / R2.6 / R8.5): the slice returned by Peek / peekAndDiscard aliases
+// bufio's internal buffer. In fn, (a) no byte of it is read after a later consuming call on the reader, and (b) it
+// does not escape into the frame being built (a payload that aliases the buffer is overwritten by the next refill).
+// Returns a description of the first problem found, "" if none.
+func peekLifetimeProblem(c *Ctx, fn *ssa.Function) string {
+	bad := ""
+	consuming := callsIn(fn, func(n string, cc *ssa.CallCommon) bool { return isConsuming(n) })
+	for _, p := range callsNamed(fn, "frame.peekAndDiscard", "(bufio.Reader).Peek") {
+		pc, ok := p.(*ssa.Call)
+		if !ok || pc.Referrers() == nil {
+			continue
+		}
+		var buf ssa.Value
+		for _, rf := range *pc.Referrers() {
+			if e, ok := rf.(*ssa.Extract); ok && e.Index == 0 {
+				buf = e
+			}
+		}
+		if buf == nil {
+			continue
+		}
+		after := func(u ssa.Instruction) ssa.CallInstruction {
+			for _, k := range consuming {
+				if k != ssa.CallInstruction(pc) && reachInstr(pc, k) && reachInstr(k, u) {
+					return k
+				}
+			}
+			return nil
+		}
+		seen := map[ssa.Value]bool{}
+		var walk func(v ssa.Value)
+		walk = func(v ssa.Value) {
+			if seen[v] || v.Referrers() == nil {
+				return
+			}
+			seen[v] = true
+			for _, u := range *v.Referrers() {
+				switch x := u.(type) {
+				case *ssa.DebugRef:
+				case *ssa.Slice:
+					walk(x)
+				case *ssa.Phi:
+					walk(x)
+				case *ssa.IndexAddr:
+					if x.Referrers() != nil {
+						for _, ld := range *x.Referrers() {
+							if k := after(ld); k != nil {
+								bad = fmt.Sprintf("%s reads a byte peeked at %s after the later read at %s", c.Pos(ld.Pos()), c.Pos(pc.Pos()), c.Pos(k.Pos()))
+							}
+						}
+					}
+				case *ssa.Store:
+					if x.Val == v {
+						bad = fmt.Sprintf("bytes peeked at %s are stored at %s without being copied: the stored slice aliases the reader's buffer and is overwritten by the next refill", c.Pos(pc.Pos()), c.Pos(x.Pos()))
+					}
+				case *ssa.MakeInterface, *ssa.Return:
+					bad = fmt.Sprintf("bytes peeked at %s escape at %s without being copied", c.Pos(pc.Pos()), c.Pos(u.Pos()))
+				case *ssa.Call:
+					if n := calleeName(&x.Call); n == "copy" && len(x.Call.Args) == 2 && x.Call.Args[0] == v {
+						bad = fmt.Sprintf("copy into the peeked buffer at %s", c.Pos(x.Pos()))
+					}
+					if k := after(x); k != nil {
+						bad = fmt.Sprintf("%s uses bytes peeked at %s after the later read at %s", c.Pos(x.Pos()), c.Pos(pc.Pos()), c.Pos(k.Pos()))
+					}
+				default:
+					if k := after(u); k != nil {
+						bad = fmt.Sprintf("%s uses bytes peeked at %s after the later read at %s", c.Pos(u.Pos()), c.Pos(pc.Pos()), c.Pos(k.Pos()))
+					}
+				}
+			}
+		}
+		walk(buf)
+	}
+	return bad
+}
+
+// rulePeekLifetime registers the peek-lifetime / payload-ownership obligation for both unmarshal functions under the
+// given rule id (shared by C01, C02, C05, C08: what is parsed — id, payload, checksum — is what was on the wire).
+func rulePeekLifetime(c *Ctx, rule, why string) {
+	r := c.R
+	r.Rule(rule, "the slice returned by Peek / peekAndDiscard aliases bufio's internal buffer: in unmarshal no byte of it is read after a later consuming call on the same reader, and it is never stored or returned without being copied "+
+		"(a refill overwrites it, so the message id / payload handed on would depend on how the stream was segmented) — "+why, 2)
+	for _, name := range []string{"V1Frame.unmarshal", "V2Frame.unmarshal"} {
+		fn := c.Fn("pkg/frame", name)
+		if fn == nil {
+			continue
+		}
+		r.Functions[fnQual(fn)] = true
+		bad := peekLifetimeProblem(c, fn)
+		r.Check(bad == "", rule, name+" peek lifetime", c.Pos(fn.Pos()), "peeked bytes are copied out before the next read and never escape", bad)
+	}
 }
